@@ -17,12 +17,13 @@ from harness.props import c02_render as R
 
 PROP = "C02"
 FLAGS = ["q_py_bool_is_number", "q_py_upper_neg_flagged", "q_py_upper_ann_flagged", "q_py_upper_tuple_flagged",
-         "q_ts_hex_e_float", "q_ts_bigint_dropped", "q_ts_test_marker_anywhere", "q_rs_hex_suffix_clash", "q_ts_single_letter_const"]
-LANG_FLAGS = {"MPy": FLAGS[0:4], "MTs": FLAGS[4:7] + FLAGS[8:9], "MRs": FLAGS[7:8]}
+         "q_ts_hex_e_float", "q_ts_bigint_dropped", "q_ts_test_marker_anywhere", "q_rs_hex_suffix_clash", "q_ts_single_letter_const",
+         "q_py_enumerate_kw_flagged", "q_py_upper_binop_flagged"]
+LANG_FLAGS = {"MPy": FLAGS[0:4] + FLAGS[9:11], "MTs": FLAGS[4:7] + FLAGS[8:9], "MRs": FLAGS[7:8]}      # the order of MagicRun.flag_ids
 COQ_LANG = {"py": "MPy", "ts": "MTs", "js": "MTs", "rs": "MRs"}
 HEADER = ("From Coq Require Import ZArith.\n"
           "From TL Require Import Lib.Base Model.MagicNum Model.Magic Model.MagicSpec Model.MagicRun Actual.MagicActual.\n")
-WORKERS = max(1, min(NPROC, int(os.environ.get("VERIF_WORKERS", "6"))))      # the box is shared: few workers for long runs
+WORKERS = max(1, min(NPROC, int(os.environ.get("VERIF_WORKERS", "4"))))      # the box is shared: few workers for long runs
 MSG_RE = re.compile(r"^Magic number (.*) should be a named constant$", re.S)
 TS_MARKERS = [".test.", ".spec.", "test_", "_test.", "/tests/", "/test/"]
 
@@ -157,7 +158,7 @@ def gen_lit(r, lang, small_bias=False):
 
 # ------------------------------------------------------------------ file generation
 CTX_WEIGHTS = {"Assign": 6, "Arg": 4, "Return": 4, "Default": 2, "Elts": 3, "Compare": 3, "Binop": 2, "Mul": 2, "Neg": 2,
-               "Upper": 6, "UpperNeg": 3, "UpperAnn": 3, "UpperTuple": 3, "Range": 4, "Enumerate": 3, "StrRepeatL": 2,
+               "Upper": 6, "UpperNeg": 3, "UpperAnn": 3, "UpperTuple": 3, "UpperBinop": 3, "Range": 4, "Enumerate": 3, "EnumerateKw": 2, "StrRepeatL": 2,
                "StrRepeatR": 2, "DictKeys": 2, "TsEnum": 3, "RsStatic": 3, "Interp": 3, "Decorator": 2, "Nested": 2, "Match": 2,
                "Kwarg": 2, "Index": 2, "Lambda": 2, "Macro": 3, "TsField": 3, "RsEnum": 3}
 IGNORE_POOL = ["tests/**", "**/*_constants.py", "*.ts", "case.py", "case", "util/*.py", "**/helpers.py", "**/case.py", "src/*", "tests/",
@@ -168,15 +169,17 @@ LANG_KEY = {"py": "python", "ts": "typescript", "js": "javascript", "rs": "rust"
 def gen_site(r, lang, kind):
     ctxs = [(c, CTX_WEIGHTS[c]) for c in R.CTXS["ts" if lang == "js" else lang] if R.ctx_ok(lang, kind, c)]
     c = wchoice(r, ctxs)
-    upper = c in ("Upper", "UpperNeg", "UpperAnn", "UpperTuple", "RsStatic", "TsEnum") or (c == "TsField" and r.random() < 0.7)
+    upper = c in ("Upper", "UpperNeg", "UpperAnn", "UpperTuple", "UpperBinop", "RsStatic", "TsEnum") or (c == "TsField" and r.random() < 0.7)
     name = r.choice(UPPER_NAMES) if upper else r.choice(CALL_NAMES) if c in ("Arg", "Decorator", "Kwarg", "Macro") else r.choice(LOWER_NAMES)
     n = 1
     if c in R.MULTI:
         n = r.choice([1, 2, 2, 3]) if c != "DictKeys" else r.choice([1, 2, 3, 4, 5, 5, 6])
         if c == "Range":
             n = r.choice([1, 1, 2])
-    small = c in ("Range", "Enumerate")
-    lits = [gen_numeric(r, lang) if c == "Match" else gen_lit(r, lang, small) for _ in range(n)]
+        if c == "UpperBinop":
+            n = r.choice([1, 2, 2])
+    small = c in ("Range", "Enumerate", "EnumerateKw")
+    lits = [gen_numeric(r, lang) if c in ("Match", "UpperBinop") else gen_lit(r, lang, small) for _ in range(n)]
     return {"ctx": c, "name": name, "lits": lits, "line": 0, "dir": r.randrange(len(R.DIR_POOL)) if r.random() < 0.12 else None}
 
 
@@ -591,10 +594,10 @@ def run(tier: str, seed: int, replay: str | None = None) -> int:
     chk = Check(PROP, tier, seed)
     load_known_d(chk)
     chk.rule = ("seeded random files in Python / TypeScript / JavaScript / Rust: 1-5 scopes (module level, function, method, nested function, "
-                "class / impl body, Rust #[test] / #[cfg(test)] scopes), 0-6 statements each placing 1-6 literals in one of 28 contexts "
+                "class / impl body, Rust #[test] / #[cfg(test)] scopes), 0-6 statements each placing 1-6 literals in one of 32 contexts "
                 "(assignment, argument, keyword argument, decorator argument, return, default, collection, nested collection, comparison, "
                 "arithmetic, negation, subscript, lambda / arrow / closure body, f-string / template-string substitution, match / switch arm, "
-                "Rust macro argument, UPPER_CASE definition in four shapes, range / enumerate, string repetition, dict keys, enum member, "
+                "Rust macro argument, UPPER_CASE definition in five shapes (plain, negated, annotated, tuple / array, product), range / enumerate (positional and start= keyword), string repetition, dict keys, enum member, "
                 "static item); literals: decimal, hex / octal / binary, "
                 "underscore-separated, Rust-suffixed, BigInt, short floats with exponents, booleans, digit strings, identifiers; file names from "
                 "a pool (plain, test-named, constants modules, look-alikes) or built from directory / stem pieces (test_ / _test / .test. / "
